@@ -171,6 +171,30 @@ def faults(sp, prefix="p", kind="transient"):
                        {"sig": f"permanent-retried:{op}"})
 
 
+def paging(sp, prefix="p"):
+    """Listings longer than one S3 page (FakeS3 pages hold 2 keys, both through the paginator and through raw list_objects_v2 with
+    NextContinuationToken): a directory with n objects (n solver-chosen, 0..6) lists identically on both backends."""
+    import datashard.storage_backend as sb
+    with Env(sp, rig="L", root="/wh/tbl", clock="tick") as el:
+        local = sb.LocalStorageBackend("/wh/tbl")
+        el.fos.mkdir_durable("/wh/tbl")
+        from vf.rigs.fakes3 import FakeS3
+        el.s3 = FakeS3(el.world)
+        s3 = el.s3_backend(prefix=prefix)
+        n = sp.choose(7, name="n_objects")
+        d = ["data", "metadata/inflight", "metadata/manifests"][sp.choose(3, name="dir")]
+        for i in range(n):
+            for st in (local, s3):
+                st.write_file(f"{d}/obj{i:02d}", b"x")
+        for st in (local, s3):
+            st.write_file("zzz/other", b"y")
+        a, b = sorted(local.list_files(d)), sorted(s3.list_files(d))
+        sp.note("n", n)
+        sp.reach("ran")
+        sp.require(a == b and len(b) == n, f"prefix {prefix!r}: {d} holds {n} objects; the local backend lists {len(a)}, the S3 backend {len(b)}: {b}",
+                   {"sig": "list-paging"})
+
+
 class _Null:
     def __enter__(self):
         return self
@@ -198,6 +222,9 @@ def obligations(tier):
                     obs.append(Ob(f"c.equiv.pfx[{pfx}].{f}.{fk.replace('/', '_')}.N3", "vf.props.c20c:equivalence",
                                   {"N": 3, "prefix": pfx, "first": f, "first_key": fk, "_sample_every": 500}, timeout=T,
                                   bounds=f"S3 prefix {pfx!r}; every program of 3 operations starting with {f}({fk})", weight=5))
+    for pfx in (["p"] if tier == "quick" else ["", "p", "p/q"]):
+        obs.append(Ob(f"c.paging.pfx[{pfx}]", "vf.props.c20c:paging", {"prefix": pfx, "_must_reach": ["ran"]}, timeout=T,
+                      bounds=f"S3 prefix {pfx!r}: directory listings of 0..6 objects (S3 page size 2) in 3 directories", weight=2))
     for kind in ("transient", "permanent", "permanent403"):
         obs.append(Ob(f"c.faults.{kind}", "vf.props.c20c:faults", {"kind": kind, "_must_reach": ["ran"]}, timeout=T,
                       bounds=f"each of 10 operations x fault at its 1st/2nd/3rd S3 request: {'1..5 consecutive transient errors' if kind == 'transient' else 'one permanent error (' + kind + ')'}",
